@@ -1098,6 +1098,14 @@ func (rr *runRec) lateCalls() {
 		if pr := b.ProxyReader(strings.NewReader("abc")); pr != nil {
 			bad("late ProxyReader on bar %d returned a proxy", i)
 		}
+		if pw := b.ProxyWriter(io.Discard); pw != nil {
+			bad("late ProxyWriter on bar %d returned a proxy", i)
+		}
+		b.EwmaIncrBy(2, time.Millisecond)
+		b.EwmaIncrInt64(1<<40, time.Millisecond)
+		b.DecoratorAverageAdjust(time.Now().Add(-time.Second))
+		b.SetTotal(-1, false)
+		b.Abort(false)
 		b.Wait()
 		after := getterSnap{Cur: b.Current(), Compl: b.Completed(), Abrt: b.Aborted(), Running: b.IsRunning(), ID: b.ID()}
 		if after != before {
